@@ -3,6 +3,7 @@ package main
 // C12: CSS parsing, minification, lowering and bundling preserve the cascade (oracle: Chrome 147).
 
 import (
+	"regexp"
 	"fmt"
 	"os"
 	"path/filepath"
@@ -20,7 +21,7 @@ var c12Selectors = []string{"div", ".a", "#i1", "[x]", "[x=y]", "div.a", ".a.b",
 var c12Families = map[string][]string{
 	"color": {"color: red", "color: #f00", "color: #ff0000ff", "color: rgb(255, 0, 0)", "color: rgba(255 0 0 / 50%)", "color: hsl(0, 100%, 50%)", "color: hsl(120deg 100% 50% / .5)", "color: hwb(0 0% 0%)", "color: blue !important", "color: red; color: unknown-fn(1)",
 		"color: unknown-fn(1); color: green", "color: lab(50% 40 30)", "color: oklch(60% .2 30)", "color: color(display-p3 1 0 0)", "color: color-mix(in srgb, red, blue)", "color: currentColor", "color: transparent", "color: #FFF", "color: rgb(0 0 0 / 0)", "color: rgb(300 -5 0)",
-		"color: hsl(400 50% 50%)", "color: hsl(-40deg 120% 50%)", "color: rgb(10% 20% 30%)", "color: #0f08", "color: RED", "color: rgb(none 0 0)", "color: inherit", "color: var(--v1, green)", "--v1: blue; color: var(--v1)", "color: rgb(from red r g b)"},
+		"color: hsl(400 50% 50%)", "color: hsl(-40deg 120% 50%)", "color: hsl(-40, 120%, 50%)", "color: hsla(320, 150%, 40%, .5)", "color: rgb(10% 20% 30%)", "color: #0f08", "color: RED", "color: rgb(none 0 0)", "color: inherit", "color: var(--v1, green)", "--v1: blue; color: var(--v1)", "color: rgb(from red r g b)"},
 	"margin": {"margin: 1px", "margin: 1px 2px", "margin: 1px 2px 3px", "margin: 1px 2px 3px 4px", "margin-top: 5px", "margin-left: 6px; margin-right: 7px", "margin: 1px; margin-top: 9px", "margin-top: 9px; margin: 1px", "margin: 1px !important; margin-top: 2px",
 		"margin-top: 2px !important; margin: 1px", "margin: 0 auto", "margin: 1px 1px 1px 1px", "margin: 1px 2px 1px 2px", "margin-top: 1px; margin-right: 1px; margin-bottom: 1px; margin-left: 1px", "margin: calc(1px + 2px)", "margin: -0px +1px 1e1px .5px", "margin: 01px 1.0px 1.50px 0.0px",
 		"margin-inline-start: 3px", "margin: 1px; margin: unknown(2px)", "margin: var(--v2, 4px)", "margin-top: 1px; margin-top: 2px", "margin: 1PX 2Px"},
@@ -40,7 +41,16 @@ var c12Families = map[string][]string{
 		"text-decoration: underline red", "--v1: {a:b}; --v2:  x ; --v3:", "--v1: 1px; width: var(--v1)", "animation: spin 1s", "aspect-ratio: 16 / 9", "clip-path: circle(50%)", "filter: blur(1px)", "text-shadow: 1px 1px red", "overflow: hidden auto", "cursor: pointer", "visibility: hidden", "rotate: 90deg", "scale: 2 2", "translate: 1px 0"},
 }
 
-var c12FamilyOrder = []string{"color", "margin", "padding-inset", "border", "font", "background", "misc"}
+var c12FamilyOrder = []string{"color", "margin", "padding-inset", "border", "font", "background", "misc", "prefixed"}
+
+func init() {
+	// properties for which esbuild inserts vendor-prefixed copies (or prefixed values) for older targets: the copies
+	// must never change what a browser that understands the unprefixed form computes
+	c12Families["prefixed"] = []string{"appearance: none", "backdrop-filter: blur(2px)", "background-clip: text", "background-clip: border-box", "box-decoration-break: clone", "clip-path: circle(40%)", "font-kerning: none", "hyphens: auto",
+		"mask-image: linear-gradient(red, blue)", "mask: url(x.png) no-repeat", "mask-size: 10px", "position: sticky; top: 1px", "position: absolute", "print-color-adjust: exact", "tab-size: 3", "text-decoration-color: red", "text-decoration-line: underline",
+		"text-emphasis-style: dot", "text-orientation: upright", "text-size-adjust: none", "user-select: none", "width: stretch", "min-height: stretch", "width: 10px", "-webkit-user-select: text; user-select: none", "user-select: none; -webkit-user-select: text",
+		"appearance: none !important", "user-select: none; user-select: unknown-value", "-webkit-appearance: button; appearance: none"}
+}
 
 type c12Wrap struct {
 	name string
@@ -83,6 +93,7 @@ var c12Cfgs = []c12Cfg{
 	{"chrome100", api.TransformOptions{Loader: api.LoaderCSS, Engines: []api.Engine{{Name: api.EngineChrome, Version: "100"}}}, true},
 	{"minify+chrome100", api.TransformOptions{Loader: api.LoaderCSS, MinifySyntax: true, Engines: []api.Engine{{Name: api.EngineChrome, Version: "100"}}}, true},
 	{"safari11-firefox60", api.TransformOptions{Loader: api.LoaderCSS, MinifySyntax: true, Engines: []api.Engine{{Name: api.EngineSafari, Version: "11"}, {Name: api.EngineFirefox, Version: "60"}}}, true},
+	{"chrome50-safari9-edge14-ios9", api.TransformOptions{Loader: api.LoaderCSS, Engines: []api.Engine{{Name: api.EngineChrome, Version: "50"}, {Name: api.EngineSafari, Version: "9"}, {Name: api.EngineEdge, Version: "14"}, {Name: api.EngineIOS, Version: "9"}}}, true},
 }
 
 type chromeResp struct {
@@ -144,7 +155,28 @@ func c12Diff(a, b string, props []string) []string {
 // (trailing declaration moved before the nested rule) must render exactly like esbuild's output in Chrome.
 const c12HoistProbe = "& { color: red } color: blue"
 
+var c12MixedRGB = regexp.MustCompile(`rgb\(([\d.]+%?) ([\d.]+%?) ([\d.]+%?)\)`)
+var c12ModernHSL = regexp.MustCompile(`hsl\((-?[\d.]+(?:deg|grad|rad|turn)?) ([\d.]+)% ([\d.]+)%\)`)
+
 func c12Classify(n *Node, cfg, input, output string) string {
+	// recorded finding: modern hsl() lowered to the legacy comma syntax, which clamps the saturation to 100%.
+	// Differential test: the input with the notation rewritten by hand must render exactly like esbuild's output.
+	if c12ModernHSL.MatchString(input) {
+		alt := c12ModernHSL.ReplaceAllString(input, "hsl($1, $2%, $3%)")
+		r := chromeStyles(n, [][]string{{alt, output}})
+		if c12Equal(r[0][0], r[0][1]) {
+			return "modern-hsl-with-saturation-above-100-lowered-to-legacy-syntax-is-clamped"
+		}
+	}
+	// recorded finding: rgb() mixing percentages and numbers (valid in the modern syntax only) is lowered to the
+	// legacy comma syntax, where the mix is invalid, so the declaration is dropped by every browser
+	if m := c12MixedRGB.FindStringSubmatch(input); m != nil && strings.Contains(m[0], "%") && (!strings.HasSuffix(m[1], "%") || !strings.HasSuffix(m[2], "%") || !strings.HasSuffix(m[3], "%")) {
+		alt := c12MixedRGB.ReplaceAllString(input, "rgb($1, $2, $3)")
+		r := chromeStyles(n, [][]string{{alt, output}})
+		if c12Equal(r[0][0], r[0][1]) {
+			return "rgb-mixing-percentages-and-numbers-lowered-to-invalid-legacy-syntax"
+		}
+	}
 	if strings.Contains(input, c12HoistProbe) {
 		alt := strings.ReplaceAll(input, c12HoistProbe, "color: blue; & { color: red }")
 		r := chromeStyles(n, [][]string{{alt, output}})
@@ -372,6 +404,7 @@ func runC12(c *Check) {
 	}
 	c12Imports(c, pool)
 	c12Modules(c, pool)
+	c12Colors(c, pool)
 	if os.Getenv("VERIF_DEBUG") != "" {
 		fmt.Fprintf(os.Stderr, "C12 imports phase done at %v\n", time.Since(c12T0))
 	}
